@@ -1,0 +1,48 @@
+//go:build verif
+
+package client
+
+// Verification hooks: exported views of unexported pure functions and of the
+// outgoing queue, compiled only with -tags verif. Nothing here changes the
+// behaviour of the library.
+
+import (
+	"time"
+)
+
+func VerifSplitMessage(msg string, splitLen int) []string { return splitMessage(msg, splitLen) }
+func VerifIndexFragment(s string) int                     { return indexFragment(s) }
+func VerifCutNewLines(s string) string                    { return cutNewLines(s) }
+func VerifSplitArgs(args []string, maxLen int) []string   { return splitArgs(args, maxLen) }
+func VerifHasPort(s string) bool                          { return hasPort(s) }
+func VerifParseUserHost(s string) (string, string, string, bool) {
+	return parseUserHost(s)
+}
+
+// VerifRateLimit runs rateLimit on a scratch Conn with the given counters.
+func VerifRateLimit(chars int, badness time.Duration, lastsent time.Time) (time.Duration, time.Duration, time.Time) {
+	c := &Conn{badness: badness, lastsent: lastsent}
+	ret := c.rateLimit(chars)
+	return ret, c.badness, c.lastsent
+}
+
+// VerifCapture gives conn a fresh outgoing queue, runs f, and returns every
+// line f put on the queue, in order.
+func VerifCapture(conn *Conn, f func()) []string {
+	conn.out = make(chan string, 32)
+	done := make(chan struct{})
+	var lines []string
+	go func() {
+		for l := range conn.out {
+			lines = append(lines, l)
+		}
+		close(done)
+	}()
+	f()
+	close(conn.out)
+	<-done
+	return lines
+}
+
+// VerifDispatchInternal runs only the internal handler set on line.
+func VerifDispatchInternal(conn *Conn, line *Line) { conn.intHandlers.dispatch(conn, line) }
